@@ -1073,13 +1073,13 @@ theorem roundtrip_marks_import_partial (R : RParser) (D : ToDom) (F : List MTree
     (cx : NodeCtx) (c : List Node) (t : TypeId) (q qe : Nat) (opts : Opts) (prev : Option (Node × String)) (prevBr : Bool)
     (ptag : String)
     (hi : Inv R.P.S w base cx [] c) (hs : MarkSt cx t q [] []) (ho : cx.opts = opts) (hok : forestOk [] F = true)
-    (hinl : (R.P.S.nodeType t).inlineContent = true) (hko : kidsOk R D opts t prev (flatF F) = true)
+    (hko : kidsOk R D opts t prev (flatF F) = true)
     (hlh : ∀ n ∈ flatF F, LeafHyp R t n) (hrun : (R.P.S.dfa t).run q (R.P.S.types (flatF F)) = some qe)
     (hprev : PrevOk prev c prevBr) :
     ∃ w' cx', DomWalk.addAll R.P ptag (forestDom R D F) prevBr w = .ok w' ∧ Inv R.P.S w' base cx' [] (c ++ flatF F) ∧
       MarkSt cx' t qe [] [] ∧ Stable cx cx' := by
   obtain ⟨w', cx', h1, h2, h3, h4⟩ := walk_forest R D F w base cx c t q qe opts prev prevBr ptag [] [] [] hi hs ho rfl
-    (fun m hm => by cases hm) hok hinl hko hlh hrun hprev
+    (fun m hm => by cases hm) hok hko hlh hrun hprev
   exact ⟨w', cx', h1, h2, by simpa using h3, h4⟩
 
 namespace RoundTripExamples
